@@ -15,6 +15,7 @@ mod s_dnswire;
 mod s_leasedb;
 mod s_radv;
 mod s_c05;
+mod s_cfg;
 
 /// Virtual wall clock: when >= 0, every CLOCK_REALTIME read in this process (Rust std and C
 /// libraries alike) returns this many seconds. The symbol overrides libc's at static link time.
@@ -71,6 +72,8 @@ fn run_case(line: &str) -> String {
         "ra" => s_radv::run(args),
         "icmp6" => s_c05::icmp6(args),
         "lldp" => s_c05::lldp(args),
+        "cfgload" => s_cfg::cfgload(args),
+        "cfgfield" => s_cfg::cfgfield(args),
         "dhcpacc" => s_c05::dhcpacc(args),
         "toarr" => s_c05::toarr(args),
         "dnssafe" => s_c05::dnssafe(args),
